@@ -73,6 +73,17 @@ class RefSList:
             if a[1] >= 1 and a[1] <= len(l):
                 return ('out', [a[1]] + l[:a[1]])
             return ('out', [0] + l)
+        if o == 'fmove':
+            # foreach over a[0] whose visitor pops the visited element off a[0] and pushes it onto the back of
+            # a[1]; output: result, visits in which pop_front did not hand back the visited element, visit log
+            if a[0] == a[1] or not (0 <= a[1] < len(L)):
+                return ('skip',)
+            l = L[a[0]]
+            k = a[2] if 1 <= a[2] <= len(l) else len(l)
+            moved = l[:k]
+            L[a[0]] = l[k:]
+            L[a[1]] = L[a[1]] + moved
+            return ('out', [a[2] if 1 <= a[2] <= len(l) else 0, 0] + moved)
         if o == 'clear':
             out = list(L[a[0]])
             L[a[0]] = []
@@ -195,7 +206,7 @@ class C13(Spec):
                     free = [e for e in range(ne) if not ref.linked(e)]
                     k = rnd.choice(['push_front', 'push_back', 'push_back', 'insert_after', 'erase_after',
                                     'pop_front', 'reverse', 'sort', 'concat', 'swap', 'foreach', 'clear',
-                                    'front', 'back', 'size', 'erase_tail', 'insert_tail'])
+                                    'front', 'back', 'size', 'erase_tail', 'insert_tail', 'fmove'])
                     if k in ('push_front', 'push_back') and free:
                         op = '%s %d %d' % (k, l, rnd.choice(free))
                     elif k == 'insert_after' and free and ref.L[l]:
@@ -212,6 +223,9 @@ class C13(Spec):
                         op = 'clear %d' % l
                     elif k == 'foreach':
                         op = 'foreach %d %d' % (l, rnd.randrange(0, 4))
+                    elif k == 'fmove' and nl > 1:
+                        m = rnd.choice([x for x in range(nl) if x != l])
+                        op = 'fmove %d %d %d' % (l, m, rnd.choice([0, 0, 0, 1, 2, 3, 5]))
                     elif k in ('concat', 'swap') and nl > 1:
                         m = rnd.choice([x for x in range(nl) if x != l])
                         op = '%s %d %d' % (k, l, m)
@@ -222,8 +236,10 @@ class C13(Spec):
                         ref.L[r[1]] = sorted(ref.L[r[1]], key=ref.key)
                     ops.append(op)
                     break
-            cases.append(Case('rnd%d' % ci, ['keys ' + ' '.join(map(str, keys)), 'nlists %d' % nl,
-                                            'cmpmode %d' % rnd.randrange(3)], ops, 'random'))
+            hdr = ['keys ' + ' '.join(map(str, keys)), 'nlists %d' % nl, 'cmpmode %d' % rnd.randrange(3)]
+            if any(o.startswith('fmove') and int(o.split()[3]) > 0 for o in ops) and rnd.random() < 0.25:
+                hdr.append('vsign -1')      # the moving visitor answers -stop (the engine's variants look at foreach only)
+            cases.append(Case('rnd%d' % ci, hdr, ops, 'random'))
         from checks.c12 import offs_variants
         return cases + offs_variants(cases, every=1)
 
@@ -233,7 +249,7 @@ SPEC = C13()
 MANIFEST = dict(
     text='Coq theorems (Properties_C13.v) over an executable model of src/slist.c: for every operation sequence the '
          'tail/count fields describe the chain, every call refines the reference sequence semantics, push_back appends '
-         'at the true end, pop_front on empty returns NULL, nothing faults; a second, pointer-level model (heap of next links, one update '
+         'at the true end, pop_front on empty returns NULL, nothing faults; foreach with a visitor that pops the visited element and appends it to another list (successor read before the visit) yields the reference split; a second, pointer-level model (heap of next links, one update '
          'per C assignment, recursive merge sort on stack-local heads) is proved to be simulated by the first for every history. Both models are tied to the C code on every run '
          'by differential execution (closure of the model state space in a small scope + seeded random histories) under ASan/UBSan.',
     note='trusted: Coq kernel; hand transcription of slist.c into SListModel.v validated only by the correspondence run; '
